@@ -4,6 +4,7 @@ import (
 	"go/constant"
 	"go/token"
 	"go/types"
+	"sort"
 	"strings"
 
 	"golang.org/x/tools/go/ssa"
@@ -891,6 +892,95 @@ func validateSpaceAndExits(c *Ctx, r *Rep, fn, validate *ssa.Function, d *dpRend
 		}
 		if readsAllowOther && n == 0 {
 			r.Undecided("shape:mandatory-per-attribute|"+fk, c.FnPos(fn), "no rejecting exit found where other attributes are allowed")
+		}
+		// every attribute of the profile gets its turn: the loop over the attributes that holds a rejection is left only
+		// through its own condition or by returning (an optional attribute is passed over, it does not end the search)
+		checkLoops := func(f *ssa.Function) {
+			k := 0
+			loopsOfF := naturalLoops(f)
+			var hs []*ssa.BasicBlock
+			for h := range loopsOfF {
+				hs = append(hs, h)
+			}
+			sort.Slice(hs, func(i, j int) bool { return hs[i].Index < hs[j].Index })
+			for _, h := range hs {
+				body := loopsOfF[h]
+				if !overAttributes(h) {
+					continue
+				}
+				holdsReject := false
+				for _, ret := range returnsOf(f) {
+					if v, isK := constBoolResult(ret); isK && !v {
+						for _, sc := range h.Succs {
+							if body[sc] && sc.Dominates(ret.Block()) {
+								holdsReject = true
+							}
+						}
+					}
+				}
+				if !holdsReject {
+					continue
+				}
+				var done *ssa.BasicBlock
+				for _, sc := range h.Succs {
+					if !body[sc] {
+						done = sc
+					}
+				}
+				early := ""
+				if done != nil {
+					for _, p := range done.Preds {
+						if p != h && h.Dominates(p) {
+							early = "left early"
+							if at := firstPos(p); at != "" {
+								early = "left early at " + at
+							}
+						}
+					}
+				}
+				k++
+				r.Check(early == "", sprintf("every-attribute-looked-at|%s#%d", c.FuncKey(f), k), firstPos(h), "the loop over the profile's attributes that can reject is left only when all attributes were seen, or by returning", early)
+			}
+		}
+		checkLoops(fn)
+		for _, ci := range callsIn(fn) {
+			if h := ci.Common().StaticCallee(); h != nil && h != fn && c.InModule(h) && h.Blocks != nil {
+				checkLoops(h)
+			}
+		}
+		// the two rejections that come before any comparison are there: an attribute name that resolves to nothing and
+		// an empty RDN each lead to an exit that answers false (in the validator or in a helper it calls)
+		{
+			unresolved, emptyRdn := 0, 0
+			count := func(f *ssa.Function) {
+				for _, ret := range returnsOf(f) {
+					res := retResults(ret)
+					if len(res) == 0 {
+						continue
+					}
+					k, isK := res[len(res)-1].(*ssa.Const)
+					if !isK || k.Value == nil || k.Value.Kind() != constant.Bool || constant.BoolVal(k.Value) {
+						continue
+					}
+					for _, g := range guardsOf(ret.Block()) {
+						if x, isNil, ok := nilTestOf(g.Cond, g.Truth); ok && isErrorType(x.Type()) && !isNil {
+							unresolved++
+							break
+						}
+						if x, empty, ok := emptyTestOf(g.Cond, g.Truth); ok && empty && strings.Contains(x.Type().String(), "RelativeDistinguishedName") {
+							emptyRdn++
+							break
+						}
+					}
+				}
+			}
+			count(fn)
+			for _, ci := range callsIn(fn) {
+				if h := ci.Common().StaticCallee(); h != nil && h != fn && c.InModule(h) && h.Blocks != nil && strings.HasSuffix(fnPkgPath(h), "generator/config") {
+					count(h)
+				}
+			}
+			r.Check(unresolved > 0 && emptyRdn > 0, "early-rejections-present|"+fk, c.FnPos(fn), "an unresolvable attribute name and an empty RDN each have an exit that answers false", sprintf("unresolvable name: %d exit(s), empty RDN: %d exit(s)", unresolved, emptyRdn))
 		}
 	}
 	// --- allowOther: each mandatory attribute is searched for; found is false until an attribute equals it
